@@ -55,6 +55,7 @@ def run(prog, chk):
         "every UFO3 fontinfo attribute is consumed by a builder or is on the reviewed not-in-OpenType list (R16.5)",
         "each computed fallback consults exactly its documented source attributes (R16.6)",
         "the object returned by getAttrWithFallback (the info's own value or the shared default) is never modified in place (R16.7)",
+        "font info values are compared with None, never tested by truthiness, except reviewed string / list attributes: an explicit 0 wins (R16.8)",
     ]
     chk.not_decided += ["the field values themselves", "which code points the Unicode database decomposes to ASCII",
                         "that the saved font reloads"]
@@ -67,6 +68,7 @@ def run(prog, chk):
     r164(prog, chk)
     r165(prog, chk, consumed)
     r167(prog, chk)
+    r168(prog, chk)
 
 
 # ------------------------------------------------------------------------- tables
@@ -757,7 +759,69 @@ def r167(prog, chk):
     chk.minimum("R16.7", 100)
 
 
+# ----------------------------------------------------------------------------- R16.8
+# attributes whose value may be tested by truthiness: strings / lists (empty == absent), or reviewed numbers
+TRUTHINESS_OK = {
+    "openTypeNamePreferredSubfamilyName": "string: empty means absent",
+    "trademark": "string", "copyright": "string",
+    "postscriptBlueValues": "list: empty means none", "postscriptOtherBlues": "list", "postscriptFamilyBlues": "list", "postscriptFamilyOtherBlues": "list",
+    "postscriptStemSnapH": "list", "postscriptStemSnapV": "list",
+    "xHeight": "only used to derive the *fallback* of another attribute (superscript offset); an x-height of 0 cannot be scaled and means unknown",
+}
+
+
+def r168(prog, chk):
+    """Explicit values win, also when they are 0: the result of getAttrWithFallback is
+    compared with None, never tested by truthiness (`v or default`, `if v`, `not v`),
+    except for reviewed string / list attributes."""
+    ix = prog.ix
+    n = 0
+    for fi in ix.functions.values():
+        calls = [c for c in A.body_nodes(fi.node) if isinstance(c, ast.Call) and prog.is_call_to(fi, c, "ufo2ft.fontInfoData.getAttrWithFallback")]
+        if not calls:
+            continue
+        names: Dict[str, ast.AST] = {}
+        for st in A.stmts_of(fi.node):
+            if isinstance(st, ast.Assign) and st.value in calls and isinstance(st.targets[0], ast.Name):
+                names[st.targets[0].id] = st.value
+        for node in A.body_nodes(fi.node):
+            tested = []
+            if isinstance(node, (ast.If, ast.IfExp, ast.While)):
+                tested.append(node.test)
+            elif isinstance(node, ast.BoolOp):
+                tested += node.values[:-1] if isinstance(node.op, ast.Or) else node.values
+            elif isinstance(node, ast.UnaryOp) and isinstance(node.op, ast.Not):
+                tested.append(node.operand)
+            for t in tested:
+                call = None
+                if t in calls:
+                    call = t
+                elif isinstance(t, ast.Name) and t.id in names:
+                    ds = prog.reaching(fi, t.id, t)
+                    if any(d.value is names[t.id] for d in ds):
+                        call = names[t.id]
+                if call is None:
+                    continue
+                n += 1
+                a = A.arg_at(call, 1, "attr")
+                try:
+                    attr = ix.const_eval(fi.module, a, prog._class_ctx(fi)) if a is not None else None
+                except Exception:
+                    attr = None
+                ok = isinstance(attr, str) and attr in TRUTHINESS_OK
+                if ok:
+                    chk.exempt("R16.8", f"{fi.short}|{attr}|{A.keytext(fi.node, node)[:50]}", TRUTHINESS_OK[attr])
+                chk.ob("R16.8", f"{fi.short}|{attr}|{A.keytext(fi.node, node)[:50]}", ok, where(fi, node), detail=TRUTHINESS_OK.get(attr, "") if isinstance(attr, str) else "",
+                       message=f"{fi.short}: the value of font info attribute {attr if attr else T(a, 30)!r} is tested by truthiness (`{T(node, 60)}`): an explicit 0 / 0.0 is treated "
+                               f"as absent and replaced, although explicit values must win")
+    chk.minimum("R16.8", 10)
+
+
 MUTANTS = [
+    M("subscript size: explicit 0 replaced by the UPM default (seeded C16c)", "ufo2ft/outlineCompiler.py", "BaseOutlineCompiler.setupTable_OS2",
+      "v = getAttrWithFallback(font.info, 'openTypeOS2SubscriptXSize')", "v = getAttrWithFallback(font.info, 'openTypeOS2SubscriptXSize') or None", rule="R16.8"),
+    M("italic angle 0 treated as absent", "ufo2ft/outlineCompiler.py", "BaseOutlineCompiler.setupTable_post",
+      "italicAngle = float(getAttrWithFallback(font.info, 'italicAngle'))", "italicAngle = float(getAttrWithFallback(font.info, 'italicAngle') or -12)", rule="R16.8"),
     M("fsSelection bits appended to the info's own list (seeded C16b)", "ufo2ft/outlineCompiler.py", "BaseOutlineCompiler.setupTable_OS2",
       "selection = list(getAttrWithFallback(font.info, 'openTypeOS2Selection'))", "selection = getAttrWithFallback(font.info, 'openTypeOS2Selection')", rule="R16.7"),
     M("head flags default mutated", "ufo2ft/outlineCompiler.py", "BaseOutlineCompiler.setupTable_head",
